@@ -1710,6 +1710,8 @@ pub fn contract_resolve_class_reference_frame<C: Ctx>(cx: &mut C) {
 
 #[cfg(not(kani))]
 pub fn hook_octet_string_to_bit_string(bytes: &[u8]) -> Vec<bool> { crate::validator::verif_hook_utils::hook_octet_string_to_bit_string(bytes) }
+#[cfg(not(kani))]
+pub use crate::validator::verif_hook_utils::hook_find_name;
 pub fn hook_bit_string_to_octet_string(bits: &[bool]) -> Option<Vec<u8>> { crate::validator::verif_hook_utils::hook_bit_string_to_octet_string(bits) }
 
 // ------------------------------------------------------------------------------------------------
